@@ -85,11 +85,29 @@ fn build_case(data: &[u16], tier: Tier, max_depth: u8) -> Option<(usize, Vec<Sea
                 SearchSpec { fen: fen.clone(), moves: mv, limit: gen_limit(&mut t, max_depth) }
             }
             _ => {
-                let (fen, moves, _pos, _src) = gen_game(&mut t, 3, 10)?;
-                SearchSpec { fen, moves, limit: gen_limit(&mut t, max_depth) }
+                let limit = gen_limit(&mut t, max_depth);
+                // searches under a time limit also get capture storms of 4-9 queens a side (a stop or an
+                // expired limit is then seen before the first root move has been searched); fixed-depth
+                // searches of those would not end
+                if !matches!(limit, Limit::Depth(_)) && t.pick(8) == 0 {
+                    let p = if t.pick(2) == 0 { storm_theme_medium(&mut t)? } else { storm_theme_sized(&mut t, true)? };
+                    if p.legal_moves().is_empty() {
+                        return None;
+                    }
+                    SearchSpec { fen: p.to_fen(), moves: vec![], limit }
+                } else {
+                    let (fen, moves, _pos, _src) = gen_game(&mut t, 3, 10)?;
+                    SearchSpec { fen, moves, limit }
+                }
             }
         };
         let mut spec = spec;
+        // (a related position of a heavy storm must not be searched to a fixed depth either)
+        if let (Limit::Depth(_), Some((pos, _))) = (&spec.limit, build(&spec)) {
+            if pos.count(true, crate::refchess::Kind::Q) + pos.count(false, crate::refchess::Kind::Q) > 12 {
+                spec.limit = Limit::MoveTime(1 + t.pick(20) as u32);
+            }
+        }
         tame(&mut spec);
         base = Some((spec.fen.clone(), spec.moves.clone()));
         searches.push(spec);
